@@ -56,6 +56,18 @@ CHECKS = {
    note="trusted: python bytes semantics as reference; results for negative/oversized positions are only required to be a BLOC error or a contiguous part "
         "of the input (manual is one line per builtin); known findings: num(str(d))/isnum(str(d)) for subnormal d",
    design="4/C10"),
+ "C11": dict(
+   technique="twin-context runtime monitor: hooked deep dump before/after the rejected text + probe program in the disturbed context vs an undisturbed twin + ASan/UBSan",
+   text="For generated prefixes (2-3 functions incl. overloads, all variable kinds, '$' variables, tables) a family of valid continuation programs "
+        "(type-changing assignments, loops over the prefix's tables, '$' iterators, handlers, new functions, redefinitions of the first/middle/last "
+        "declared function, another generated program over the same names) is corrupted at token positions (every truncation point, deletions, keyword/"
+        "operator replacements, unbalancing insertions) and kept when the parser rejects it; through Parser::parse and bloc_parse_executable. The dump "
+        "of the context after the rejection (values, types, tuple declarations, safety/lock flags, every function's signature and unparsed body, control "
+        "depth, exec level, stop flags, pending symbol backups) must equal the dump before, and a generated probe (calls every function, loops, "
+        "handlers) must be accepted, behave and leave the same state as in a twin context that never saw the rejected text.",
+   note="trusted: harness dump; names introduced only by the rejected text are projected out; interactive statement-at-a-time delivery of R is not used "
+        "(valid leading statements would legitimately execute)",
+   design="4/C11"),
  "C06": dict(
    technique="reference-interpreter monitor (python model of the documented loop/conditional semantics) over generated programs + post-run invariant hooks (control stack, symbol flags) + ASan/UBSan",
    text="Loop headers are enumerated bounded-exhaustively (bounds in {-2..2, INT64_MIN..+2, INT64_MAX-2.., null} x steps {absent,1,2,3,0,-1,null,INT64_MAX} x "
